@@ -62,6 +62,10 @@ def gen_module(pool_expr: str, seeds: List[List[str]]) -> str:
         "     \\cup {Call(f, <<a>>) : f \\in {\"len\", \"print\", \"f\", \"int\"}, a \\in D0(LitsTiny)}",
         "     \\cup {BoolE(op, <<a, b>>) : op \\in {\"and\", \"or\"}, a \\in D0({I(0), I(2)}), b \\in D0(LitsTiny)}",
         "     \\cup {Meth(S(<<97>>), m, <<>>) : m \\in {\"upper\", \"foo\"}}",
+        "D1ife == {Bin(op, a, b) : op \\in {\"+\", \"/\"}, a \\in D0({I(0), I(2)}), b \\in D0({I(0), I(2)})}",
+        "     \\cup {CmpE(<<op>>, <<a, b>>) : op \\in {\"<\", \"==\"}, a \\in D0({I(0), I(2)}), b \\in D0({I(0), I(2)})}",
+        "     \\cup {Un(\"not\", a) : a \\in D0({I(0), I(2)})}",
+        "     \\cup {Call(f, <<a>>) : f \\in {\"len\", \"print\", \"f\"}, a \\in D0({I(0), I(2), S(<<97>>)})}",
         "MC_Pool == " + pool_expr,
         "MC_Seeds == " + tla_set("<<" + ", ".join(s) + ">>" for s in seeds),
         "====", ""])
@@ -85,7 +89,7 @@ def runs(t: str):
     return [("depth1-all-literals", "D0(LitsAll)", base + b3),
             ("depth1-chains", "D0(LitsAll)", chain),
             ("depth2-tiny", "D0(LitsTiny) \\cup D1tiny", [s for s in base if s[0] != '"ife"' and s[0] != '"lit"']),
-            ("depth2-ife-bool3", "D0({I(0), I(2)}) \\cup D1tiny", [['"ife"']] + b3 + chain[:4])]
+            ("depth2-bool3-chains", "D0({I(0), I(2)}) \\cup D1ife", [['"ife"']] + b3 + chain[:4])]
 
 
 # --------------------------------------------------------------------------------------
